@@ -131,7 +131,7 @@ TEXT = {
     'C16': dict(
         technique='deterministic simulation replayed in differing builds: identical seeds executed in {c++11,14,17,20} x {extras} x {NDEBUG} x {-O0,-O2} '
                   'builds, transcript (event-log) equality between builds + per-build reference model',
-        text='A portable profile (13 vector, 3 FlatSet and, from C++17, 2 SmallSet configurations incl. an over-aligned element; standard operations, plus the extras where built; about one vector operation in eight carries an injected element fault) '
+        text='A portable profile (15 vector, 3 FlatSet and, from C++17, 2 SmallSet configurations incl. an over-aligned element and an element whose own swap can throw; standard operations, plus the extras where built; about one vector operation in eight carries an injected element fault) '
              'executes the same seeds in every build of the matrix; the per-step transcripts (operation, arguments, results, exceptions, size, capacity, contents) '
              'must be byte-identical between builds, each build also checks its own std::vector/std::set '
              'model, SFINAE probes check that the extras are absent at compile time when disabled, and a matrix configuration that no longer '
